@@ -48,7 +48,9 @@ def gen_line(r, unicode_ok=True):
     toks = []
     if kind == 'upperlead':
         toks.append(r.pick(UPPER))
-    for _ in range(r.randint(1, 6)):
+    # mostly short lines; one in ten is long, so that what follows an
+    # ignorable part can itself be longer than any fixed small width
+    for _ in range(r.weighted([(9, r.randint(1, 6)), (1, r.randint(8, 18))])):
         t = r.weighted([(5, 'w'), (3, 'd'), (1, 'v'), (1, 'ym'), (1, 'U'),
                         (1, 'p'), (1 if unicode_ok else 0, 'u')])
         toks.append({'w': lambda: r.pick(WORDS), 'd': lambda: tok_digits(r),
